@@ -8,7 +8,7 @@ Open Scope N_scope.
 
 Ltac prj := cbn [s_now s_control s_restart_iin s_enabled s_last s_select s_unsol s_unsol_seq s_deferred
   s_last_recorded s_last_bcast s_sol_buf s_unsol_buf s_pending s_frame_id s_notify s_sel_status s_op_status
-  s_app_iin s_answers upd_control upd_now upd_restart upd_enabled upd_last upd_select upd_unsol upd_unsol_seq
+  s_app_iin s_answers s_bcast_rep upd_bcast_rep upd_control upd_now upd_restart upd_enabled upd_last upd_select upd_unsol upd_unsol_seq
   upd_deferred upd_last_recorded upd_last_bcast upd_sol_buf upd_unsol_buf upd_pending upd_frame_id upd_notify
   upd_knobs upd_answers session_reset] in *.
 
@@ -127,6 +127,17 @@ Proof.
   eapply pres_trans; [exact E1|]. destruct (s_last_bcast s0) as [[]|]; try apply pres_refl; pres_now.
 Qed.
 
+Lemma bcast_reported_pres s c : pres fall s (bcast_reported s c).
+Proof. unfold bcast_reported. destruct (s_last_bcast s) as [[]|]; try apply pres_refl; pres_now. Qed.
+Lemma bcast_confirmed_pres s u q : pres fall s (bcast_confirmed s u q).
+Proof. unfold bcast_confirmed. destruct (rep_eqb _ _ _); try apply pres_refl; pres_now. Qed.
+Lemma bcast_confirmed_select s u q : s_select (bcast_confirmed s u q) = s_select s.
+Proof. unfold bcast_confirmed. destruct (rep_eqb _ _ _); reflexivity. Qed.
+Lemma bcast_reported_bcast s c : s_last_bcast (bcast_reported s c) = s_last_bcast s.
+Proof. unfold bcast_reported. destruct (s_last_bcast s) as [[]|] eqn:E; prj; auto. Qed.
+Lemma bcast_reported_sol_buf s c : s_sol_buf (bcast_reported s c) = s_sol_buf s.
+Proof. unfold bcast_reported. destruct (s_last_bcast s) as [[]|]; reflexivity. Qed.
+
 Lemma write_solicited_pres s dest r s1 r1 o :
   write_solicited s dest r = (s1, r1, o) ->
   pres fall s s1 /\ no_cb o /\ r_size r1 = r_size r /\
@@ -134,8 +145,9 @@ Lemma write_solicited_pres s dest r s1 r1 o :
 Proof.
   unfold write_solicited. destruct (response_iin s) as [[s0 iin] o0] eqn:E.
   apply response_iin_pres in E. destruct E as [E1 E2]. intros H. inversion H; subst. clear H.
-  split; [exact E1|]. split; [apply no_cb_app; split; [exact E2|reflexivity]|].
-  split; [destruct (s_last_bcast s1) as [[]|]; reflexivity|]. eexists; reflexivity.
+  split; [eapply pres_trans; [exact E1|apply bcast_reported_pres]|].
+  split; [apply no_cb_app; split; [exact E2|reflexivity]|].
+  split; [destruct (s_last_bcast s0) as [[]|]; reflexivity|]. rewrite bcast_reported_sol_buf. eexists; reflexivity.
 Qed.
 
 Lemma write_unsolicited_pres cfg s r s1 r1 o :
@@ -143,7 +155,7 @@ Lemma write_unsolicited_pres cfg s r s1 r1 o :
 Proof.
   unfold write_unsolicited. destruct (response_iin s) as [[s0 iin] o0] eqn:E.
   apply response_iin_pres in E. destruct E as [E1 E2]. intros H. inversion H; subst. clear H.
-  split; [exact E1|]. apply no_cb_app; split; [exact E2|reflexivity].
+  split; [eapply pres_trans; [exact E1|apply bcast_reported_pres]|]. apply no_cb_app; split; [exact E2|reflexivity].
 Qed.
 
 Lemma write_error_response_pres s from bc seq s1 o :
@@ -539,7 +551,7 @@ Lemma process_broadcast_spec cfg s m fid ctl fn bytes obj s1 o :
                               fn <> fn_select /\ fn <> fn_operate /\ fn <> fn_direct_operate).
 Proof.
   unfold process_broadcast.
-  assert (P0 : pres fall s (upd_last_bcast s (Some m))) by pres_now.
+  assert (P0 : pres fall s (upd_bcast_rep (upd_last_bcast s (Some m)) None)) by pres_now.
   destruct (negb (o_broadcast cfg)).
   { intros H; inversion H; subst. split; [exact P0|]. intros c [Hc|[]]; discriminate Hc. }
   destruct obj as [e|hdrs rh].
@@ -555,18 +567,18 @@ Proof.
     apply in_app_or in Hin. destruct Hin as [Hin|[Hin|[]]]; [|discriminate Hin].
     apply misc_cb_fn. rewrite Forall_forall in Hm. apply (Hm _ Hin). }
   destruct (fn =? fn_write) eqn:E.
-  { apply N.eqb_eq in E. destruct (handle_write_headers cfg (upd_last_bcast s (Some m)) hdrs) as [[s2 v] o2] eqn:E2.
+  { apply N.eqb_eq in E. destruct (handle_write_headers cfg (upd_bcast_rep (upd_last_bcast s (Some m)) None) hdrs) as [[s2 v] o2] eqn:E2.
     apply handle_write_headers_spec in E2. destruct E2 as [A B]. intros H; inversion H; subst s1 o.
     apply (Hdone _ _ _ E); try discriminate; [exact (pres_trans _ _ _ _ P0 A)|exact B]. }
   clear E. destruct (fn =? fn_direct_operate_nr) eqn:E.
   { apply N.eqb_eq in E.
-    destruct (handle_controls cfg (upd_last_bcast s (Some m)) fn (ctl_seq ctl) fid bytes hdrs) as [[s2 r2] o2] eqn:E2.
+    destruct (handle_controls cfg (upd_bcast_rep (upd_last_bcast s (Some m)) None) fn (ctl_seq ctl) fid bytes hdrs) as [[s2 r2] o2] eqn:E2.
     intros H; inversion H; subst s1 o. clear H.
     pose proof E2 as E3. apply handle_controls_spec in E3; [|tauto]. destruct E3 as [_ [Hcb _]].
-    assert (s2 = upd_last_bcast s (Some m)).
+    assert (s2 = upd_bcast_rep (upd_last_bcast s (Some m)) None).
     { revert E2. unfold handle_controls. destruct (negb (all_controls hdrs)); [intros H; inversion H; reflexivity|].
       rewrite E. rewrite N.eqb_refl.
-      destruct (noack_headers (upd_last_bcast s (Some m)) cfg 0 false hdrs). intros H; inversion H; reflexivity. }
+      destruct (noack_headers (upd_bcast_rep (upd_last_bcast s (Some m)) None) cfg 0 false hdrs). intros H; inversion H; reflexivity. }
     subst s2. split; [exact P0|]. intros c Hin. exists hdrs, rh. split; [reflexivity|].
     apply in_app_or in Hin. destruct Hin as [Hin|[Hin|[]]]; [|discriminate Hin].
     apply Hcb in Hin. destruct Hin as [Hin _]. split; [exact Hin|]. rewrite E. repeat split; discriminate. }
@@ -583,11 +595,11 @@ Proof.
   { apply N.eqb_eq in E. intros H; inversion H; subst s1 o.
     apply (Hdone _ [] _ E); try discriminate; [pres_now|constructor]. }
   clear E. destruct (fn =? fn_disable_unsol) eqn:E.
-  { apply N.eqb_eq in E. destruct (enable_disable cfg (upd_last_bcast s (Some m)) false (ctl_seq ctl) hdrs) as [s2 r2] eqn:E2.
+  { apply N.eqb_eq in E. destruct (enable_disable cfg (upd_bcast_rep (upd_last_bcast s (Some m)) None) false (ctl_seq ctl) hdrs) as [s2 r2] eqn:E2.
     apply enable_disable_pres in E2. intros H; inversion H; subst s1 o.
     apply (Hdone _ [] _ E); try discriminate; [exact (pres_trans _ _ _ _ P0 E2)|constructor]. }
   clear E. destruct (fn =? fn_enable_unsol) eqn:E.
-  { apply N.eqb_eq in E. destruct (enable_disable cfg (upd_last_bcast s (Some m)) true (ctl_seq ctl) hdrs) as [s2 r2] eqn:E2.
+  { apply N.eqb_eq in E. destruct (enable_disable cfg (upd_bcast_rep (upd_last_bcast s (Some m)) None) true (ctl_seq ctl) hdrs) as [s2 r2] eqn:E2.
     apply enable_disable_pres in E2. intros H; inversion H; subst s1 o.
     apply (Hdone _ [] _ E); try discriminate; [exact (pres_trans _ _ _ _ P0 E2)|constructor]. }
   intros H; inversion H; subst. split; [exact P0|]. intros c [Hc|[]]; discriminate Hc.
@@ -943,10 +955,11 @@ Proof.
         - intros; exact Hno. }
       destruct (ctl_uns ctl).
       - destruct (ctl_seq ctl =? ctl_seq (r_ctl resp)); intros H.
-        + eapply (Hgen (upd_last_bcast s None)); [pres_now|reflexivity|right; eexists; exact H].
+        + eapply (Hgen (bcast_confirmed s true (ctl_seq ctl)));
+            [eapply pres_sub; [|apply bcast_confirmed_pres]; reflexivity|apply bcast_confirmed_select|right; eexists; exact H].
         + eapply (Hgen s); [apply pres_refl|reflexivity|left; exact H].
-      - intros H. eapply (Hgen (match s_last_bcast s with Some BMandatory => upd_last_bcast s None | _ => s end));
-          [| |left; exact H]; destruct (s_last_bcast s) as [[]|]; try apply pres_refl; try reflexivity; pres_now. }
+      - intros H. eapply (Hgen (bcast_confirmed s false (ctl_seq ctl)));
+          [eapply pres_sub; [|apply bcast_confirmed_pres]; reflexivity|apply bcast_confirmed_select|left; exact H]. }
     apply N.eqb_neq in E0.
     destruct obj as [iin2|hdrs rh].
     { destruct (write_solicited (upd_deferred s None) from (empty_solicited (ctl_seq ctl) iin2)) as [[s1 r1] o1] eqn:Ew.
